@@ -7,7 +7,7 @@
 set -u
 ID=$1; X=$2; NEEDS=$3; shift 3
 CHECKS=${*:-$ID}
-src=/tmp/seed/$ID/seed/$X
+src=${SEEDROOT:-/tmp/seed}/$ID/seed/$X
 [ -f "$src/patch.diff" ] || { echo "no $src/patch.diff"; exit 2; }
 W=$(mktemp -d /tmp/keep.XXXXXX); rmdir "$W"
 git -C /repo worktree add --detach "$W" HEAD >/dev/null 2>&1 || exit 2
